@@ -2662,15 +2662,16 @@ class Network(Cached):
             #  Set infinite entries corresponding to unconnected pairs to zero
             path_lengths[unconnected_pairs] = 0
 
-            #  Take average of shortest geographical path length matrix
-            #  excluding the diagonal, since it is always zero, and all
-            #  unconnected pairs.  The diagonal should never contain
-            #  infinities, so that should not be a problem.
-            average_path_length = (path_lengths.sum() / float(
-                self.N * (self.N - 1) - n_unconnected_pairs))
-
-            #  Reverse changes to path_lengths
-            path_lengths[unconnected_pairs] = np.inf
+            try:
+                #  Take average of shortest geographical path length matrix
+                #  excluding the diagonal, since it is always zero, and all
+                #  unconnected pairs.  The diagonal should never contain
+                #  infinities, so that should not be a problem.
+                average_path_length = (path_lengths.sum() / float(
+                    self.N * (self.N - 1) - n_unconnected_pairs))
+            finally:
+                #  Reverse changes to path_lengths
+                path_lengths[unconnected_pairs] = np.inf
 
             return average_path_length
 
@@ -3143,15 +3144,16 @@ class Network(Cached):
             #  number of vertices
             path_lengths[unconnected_pairs] = self.N
 
-            #  Some polar nodes have an assigned distance of zero to all their
-            #  neighbors. These nodes get zero geographical closeness
-            #  centrality.
-            path_length_sum = path_lengths.sum(axis=1)
-            CC[path_length_sum != 0] = \
-                (self.N - 1) / path_length_sum[path_length_sum != 0]
-
-            #  Reverse changes to weightedPathLengths
-            path_lengths[unconnected_pairs] = np.inf
+            try:
+                #  Some polar nodes have an assigned distance of zero to all
+                #  their neighbors. These nodes get zero geographical closeness
+                #  centrality.
+                path_length_sum = path_lengths.sum(axis=1)
+                CC[path_length_sum != 0] = \
+                    (self.N - 1) / path_length_sum[path_length_sum != 0]
+            finally:
+                #  Reverse changes to weightedPathLengths
+                path_lengths[unconnected_pairs] = np.inf
 
             return CC
 
@@ -3926,11 +3928,13 @@ class Network(Cached):
         #  entries when calculating efficiency
         np.fill_diagonal(path_lengths, np.inf)
 
-        #  Calculate global efficiency
-        efficiency = (1/float(self.N * (self.N-1)) * (1/path_lengths).sum())
-
-        #  Restore path lengths on diagonal to zero
-        np.fill_diagonal(path_lengths, 0)
+        try:
+            #  Calculate global efficiency
+            efficiency = (1/float(self.N * (self.N-1))
+                          * (1/path_lengths).sum())
+        finally:
+            #  Restore path lengths on diagonal to zero
+            np.fill_diagonal(path_lengths, 0)
 
         return efficiency
 
